@@ -79,16 +79,25 @@ structure Outcome where
 def writeFile (files : Path → Option (List Char)) (p : Path) (c : List Char) : Path → Option (List Char) :=
   fun q => if q = p then some c else files q
 
-/-- `main`: the input is read completely before the output file is created -/
+/-- `--removal-marker-target-config` names a file that cannot be opened (`File::open(..).expect("file not found")`) -/
+def configMissing (a : Args) (w : World) : Bool :=
+  match a.removalMarkerTargetConfig with
+  | some p => (w.files p).isNone
+  | none => false
+
+/-- `main`: the input is read completely, then the target config file, and only then the output file is created; a
+    file that cannot be opened ends the run with a panic (exit status 101) and nothing written -/
 def run (a : Args) (w : World) : Outcome :=
   match contentOf a w with
   | none => ⟨101, [], w.files⟩                       -- "file not found" panic
   | some content =>
-    match resultOf a w content with
-    | .error _ => ⟨101, [], w.files⟩
-    | .ok out =>
-      match a.output with
-      | some p => ⟨0, [], writeFile w.files p out⟩
-      | none => ⟨0, out, w.files⟩
+    if configMissing a w then ⟨101, [], w.files⟩     -- "file not found" panic in load_removal_marker_target_names
+    else
+      match resultOf a w content with
+      | .error _ => ⟨101, [], w.files⟩
+      | .ok out =>
+        match a.output with
+        | some p => ⟨0, [], writeFile w.files p out⟩
+        | none => ⟨0, out, w.files⟩
 
 end Chiritori.Cli
